@@ -81,13 +81,19 @@ def _probe_tree():
         "twice.py": "def area(w, h):\n    return 3.5 * w + 3.5 * h\n",
         "twice.ts": "export function area(w: number, h: number): number {\n  return 3.5 * w + 3.5 * h;\n}\n",
     }
+    # ignore patterns that match a directory's NAME but not the paths of the files inside it:
+    # whatever they mean, they must mean the same to a directory walk and to explicit files
+    files["auto_gen/made.py"] = "def made(n):\n    print(n, 3611)\n    return n\n"
+    files["cache.d/kept.py"] = "def kept(n):\n    print(n, 3612)\n    return n\n"
+    files[".thailintignore"] = "*_gen\nstale\n"
+    files["stale/old.py"] = "def old(n):\n    print(n, 3613)\n    return n\n"
     for n in ("probe_alias.py", "probe_regex.py", "probe_list.py", "probe_str.py"):
         files["pairs/" + n] = PROBES[n]
     _zoo, cfg, _index = load.zoo_project()
     # the project's own configuration is strict; alt/choice.yaml (for --config / config_file=)
     # mentions other sections only: nothing of the project's file may leak into such a run
     files["alt/choice.yaml"] = yaml_dump({"srp": {"max_methods": 9}, "dry": {"enabled": False}})
-    return files, load.deep_merge(cfg, {"dry": {"enabled": True}, "nesting": {"max_nesting_depth": 1}, "magic-numbers": {"allowed_numbers": []}})
+    return files, load.deep_merge(cfg, {"dry": {"enabled": True}, "nesting": {"max_nesting_depth": 1}, "magic-numbers": {"allowed_numbers": []}, "ignore": ["cache.d"]})
 
 
 def _tree(item):
@@ -155,7 +161,7 @@ def run_item(item) -> Acc:
     acc = Acc()
     files, cfg = _tree(item)
     root = project({**files, ".thailint.yaml": yaml_dump(cfg)}, name="build/proj" if item["tree"] == -1 else "proj")
-    names = sorted(files)
+    names = sorted(n for n in files if not n.startswith((".thailint", "alt/")))
     k = item["kind"]
     if k == "lib-subsets":
         single = {f: _lib_files(root, cfg, [f]) for f in names}
@@ -181,7 +187,9 @@ def run_item(item) -> Acc:
         # the directory run also lints the config file itself; compare on the tree's files
         whole_pf = [t for t in _perfile(whole) if t[1] in files]
         _diff_fail(acc, {"edge": "dir-vs-union", "entry": "library"}, {"tree": item["tree"], "target": "."}, union, whole_pf, "lint_directory vs union of single-file runs (per-file rules)")
-        for r in range(1, len(names) + 1):
+        # the probe tree has more files than 2^n allows: all subsets of up to three files + the full list
+        sizes = range(1, len(names) + 1) if item["tree"] != -1 else (1, 2, 3, len(names))
+        for r in sizes:
             for subset in itertools.combinations(names, r):
                 got = _perfile(_lib_files(root, cfg, list(subset)))
                 want = [t for f in subset for t in _perfile(single[f])]
